@@ -1,0 +1,9 @@
+//go:build verif
+
+// Contracts checked by /verif/govc (comment-only; compiled only with -tags verif).
+package rangecheck
+
+//@ contract New
+//@   trusted
+//@   pure
+//@   ensures result != nil
